@@ -164,6 +164,9 @@ func generatedCorpus() []corpusItem {
 		{Path: "generated/numbers.bson", Formats: []string{"bson"}, Data: h("65000000126d696e000000000000000080126e656700fbffffffffffffff106933320000000080016400000000000000008001626967009c7500883ce4377e087400010a6e000273000400000061626300036f001000000012780000000000000000800000")},
 		{Path: "generated/nested.cbor", Formats: []string{"cbor"}, Data: append(bytes.Repeat([]byte{0x81}, 9), h("83016161a1616b820243010203")...)},
 		{Path: "generated/nested.bencode", Formats: []string{"bencode"}, Data: nest("l", "i1e1:ad1:kli-9223372036854775808e3:abcee", "e", 9)},
+		// an avro object container file whose record fields are named _id, _len, name: field names that come from the
+		// input may start with an underscore, where decode values keep their own _-prefixed keys (seed C08-G)
+		{Path: "generated/underscore.avro", Formats: []string{"avro_ocf"}, Data: h("4f626a0104166176726f2e736368656d61a8027b2274797065223a20227265636f7264222c20226e616d65223a2022726f77222c20226669656c6473223a205b7b226e616d65223a20225f6964222c202274797065223a20226c6f6e67227d2c207b226e616d65223a20225f6c656e222c202274797065223a20226c6f6e67227d2c207b226e616d65223a20226e616d65222c202274797065223a2022737472696e67227d5d7d146176726f2e636f646563086e756c6c00000102030405060708090a0b0c0d0e0f041c540e0a616c696365561206626f62000102030405060708090a0b0c0d0e0f")},
 		{Path: "generated/numbers.json", Formats: []string{"json"}, Data: []byte(`[18446744073709551615,-9223372036854775808,-18446744073709551616,-1180591620717411303424,1e300,-0.0,5e-324,"abc","",true,null,{"a":-9223372036854775808,"b":[-1,1.5]}]`)},
 	}
 }
